@@ -1,0 +1,13 @@
+//go:build !verif
+
+// Package verifhook holds verification-only call-outs. Without the "verif"
+// build tag every function is an empty stub that the compiler inlines away.
+package verifhook
+
+import "time"
+
+// Backoff reports false: the caller performs its normal wait.
+func Backoff(d time.Duration) bool { return false }
+
+// Yield does nothing.
+func Yield(point string) {}
